@@ -24,6 +24,10 @@ _compile; (R1-generated-int-codec) generated code decodes / encodes integers thr
 Round 5: (g) the pack drivers convert every encode failure (no narrower handler before the
 catch-all); (h) a field handed out by a selector is compiled alike on both sides; (i) the cookie
 covers the generated text (byte-order prefix).
+
+Round 6: every spelling of the byte order x both hosts gives a standard-size struct object; the
+PacketError constructor does not %-format a string that contains the original message; stale
+constructor-derived state.
 """
 import ast
 
